@@ -39,7 +39,7 @@ def gen_programs(rng, n, depth, allow_tensor_consts):
                     e = outreduce(rng.choice(["sum", "amax", "prod", "mean"]), a, rng.choice([None] + list(range(len(sh)))) if sh else None, rng.random() < 0.3)
                 elif kind == "getitem":
                     a = rng.choice(exprs)
-                    e = getitem(a, kvar) if rng.random() < 0.6 else getslice(a, rng.choice([0, -1, slice(1, None), (Ellipsis, 0)]))
+                    e = getitem(a, kvar) if rng.random() < 0.6 else getslice(a, rng.choice([0, -1, slice(1, None), (Ellipsis, 0), None, (None, Ellipsis), (slice(None), None), Ellipsis]))
                 elif kind == "reshape":
                     a = rng.choice([x for x in exprs if type_of(x)[1][1]])
                     sh = type_of(a)[1][1]
@@ -240,15 +240,26 @@ def instances(tier, seed):
         if rng.random() < 0.2:
             out.append(("p", p, "kwargs"))
     # parametrised ops with an earlier parameter at its default and a later one not (printing / pickling of op params)
-    from lang.prog import outreduce, var, binary, num
+    from lang.prog import outreduce, var, binary, num, type_of
     m = var("m", VARS["m"])
     for opn in ("sum", "amax", "amin", "prod", "mean", "var", "std", "logsumexp"):
         for axis, kd in ((None, True), (0, True), (1, False), (-1, True), (None, False)):
             p = binary("add", outreduce(opn, m if opn != "logsumexp" else m, axis, kd), num(2.0))
             for mode in ("compile", "code", "pickle", "trace"):
                 out.append(("p", p, mode))
+    # op parameters that are None / Ellipsis / tuples with None (printing and pickling of op parameters)
+    from lang.prog import getslice
+    for base in (var("x", VARS["x"]), var("m", VARS["m"])):
+        for index in (None, Ellipsis, (None, Ellipsis), (slice(None), None), (Ellipsis, None), 0, (Ellipsis, 0), slice(None, None, 2)):
+            try:
+                p = binary("add", getslice(base, index), num(1.0))
+                type_of(p)
+            except Exception:
+                continue
+            for mode in ("compile", "code", "pickle"):
+                out.append(("p", p, mode))
     # flat n-ary contractions (built under normalize): every arity, commutative and mixed shapes
-    from lang.prog import type_of, unary
+    from lang.prog import unary
     from lang.gen import well_typed
     scal = [var(k, d) for k, d in VARS.items() if d[0] == "real" and not d[1]] or [var(k, d) for k, d in VARS.items() if d[0] == "real"][:1]
     same = [v for v in [var(k, d) for k, d in VARS.items() if d[0] == "real"] if type_of(v)[1] == type_of(scal[0])[1]]
